@@ -17,18 +17,20 @@ Definition closed_flag (ls : list pline) (so : bool) : bool :=
   | Err _ => true
   end.
 
-(* hypotheses of the denotation theorems (strand layout): the graph seed returns is the declarative
-   graph, the loaded specification is well formed, the node encoding is increasing and links join declared nodes *)
-Definition denote_flags (ls : list pline) : list bool :=
+(* hypotheses of the denotation theorems, per layout: the graph seed returns is the declarative graph,
+   the loaded specification is well formed, the node encoding is increasing and links join declared nodes *)
+Definition denote_flags (ls : list pline) (so : bool) : list bool :=
   match load_spec ls pspec0 with
-  | OK p => match seed p false with
-            | OK (lay, g) => [same_graph p lay g; spec_okb p; dgraph_ok p lay]
+  | OK p => match seed p so with
+            | OK (lay, g) => [same_graph p lay so g; spec_okb p so; dgraph_ok p lay so]
             | Err _ => [] end
   | Err _ => []
   end.
 Definition run_denote (req : sexp) : sexp :=
   match req with
-  | Li [lines] => match dL d_pline lines with Some ls => sL sB (denote_flags ls) | None => bad_request end
+  | Li [lines] => match dL d_pline lines with
+                  | Some ls => Li [sL sB (denote_flags ls false); sL sB (denote_flags ls true)]
+                  | None => bad_request end
   | _ => bad_request
   end.
 
